@@ -585,6 +585,25 @@ func mentions(s, tok string) bool {
 	return strings.Contains(s, q[1:len(q)-1])
 }
 
+// namedBackends returns the backend IDs a key names. IDs may contain one
+// another ("team", "team:prod"), so longer IDs are matched first and their
+// occurrences removed before shorter ones are looked for.
+func (wd *c17World) namedBackends(k string) map[string]bool {
+	ids := make([]string, 0, len(wd.Bs))
+	for _, b := range wd.Bs {
+		ids = append(ids, b.Rec.ID)
+	}
+	sort.Slice(ids, func(i, j int) bool { return len(ids[i]) > len(ids[j]) })
+	out := map[string]bool{}
+	for _, id := range ids {
+		if mentions(k, id) {
+			out[id] = true
+			k = stripMentions(k, id)
+		}
+	}
+	return out
+}
+
 // stripMentions removes every mention of tok (raw or %q-quoted) from s, so
 // that an ID that merely begins with another ID is not mistaken for it.
 func stripMentions(s, tok string) string {
@@ -672,6 +691,7 @@ func (wd *c17World) foreign(x string, keys []string) []string {
 	for _, k := range keys {
 		k = strings.TrimLeft(k, "+-~")
 		isBad := false
+		named := wd.namedBackends(k)
 		for _, b := range wd.Bs {
 			y := b.Rec.ID
 			if y == x {
@@ -680,7 +700,7 @@ func (wd *c17World) foreign(x string, keys []string) []string {
 			if wd.owned[y][k] && !wd.owned[x][k] {
 				isBad = true
 			}
-			if mentions(stripMentions(k, x), y) {
+			if named[y] {
 				isBad = true
 			}
 			for _, rq := range b.Reqs {
@@ -934,8 +954,9 @@ func (wd *c17World) judge(r *core.Run, c *c17Case, res *c17Result, st *c17State)
 			}
 		}
 		for _, d := range res.Diff {
+			named := wd.namedBackends(d)
 			for id, rec := range st.reg {
-				if rec.EndUser != user && rec.EndUser != "allUsers" && mentions(d, id) {
+				if rec.EndUser != user && rec.EndUser != "allUsers" && named[id] {
 					viol("user-request-stored-under-foreign-backend", fmt.Sprintf("end user %q: state change %s names backend %q registered for %q", user, d, id, rec.EndUser))
 				}
 			}
